@@ -131,6 +131,14 @@ def cases(rng, tier):
         for kform in ("key", "jwk"):
             for order in ([1, 2], [2, 1], [1, 2, 1]):
                 out.append({"op": "jwt_reuse", "alg": alg, "kform": kform, "order": order, "kind": "header-reuse"})
+    # a long-lived KeySet whose key list is changed in place (JWKS rotation): verification follows the keys it holds now
+    for alg in ("HS256", "RS256", "ES256", "EdDSA"):
+        for how in ("replace-same-kid", "remove", "append-new"):
+            out.append({"op": "keyset_rotation", "alg": alg, "how": how, "kind": "keyset-rotation"})
+    # EdDSA over both RFC 8037 curves (signature sizes 64 and 114 octets), every serialization
+    for crv in ("Ed25519", "Ed448"):
+        for ser in ("compact", "flat", "general", "jwt"):
+            out.append({"op": "eddsa_curve", "crv": crv, "ser": ser, "alg": "EdDSA", "kind": "okp-curve"})
     payloads = PAYLOADS if tier == "thorough" else PAYLOADS[:5]
     for alg in R.ALL_ALGS:
         key = raw_key(alg)
@@ -207,6 +215,64 @@ def impl(c):
     if c["op"] == "hmac":
         import hmac, hashlib
         return {"mac": hmac.new(bytes.fromhex(c["k"]), bytes.fromhex(c["m"]), getattr(hashlib, f"sha{c['bits']}")).hexdigest()}
+    if c["op"] == "keyset_rotation":
+        jw = JsonWebToken(R.ALL_ALGS)
+        def kobj(n, private, kid):
+            if c["alg"].startswith("HS"):
+                return OctKey.import_key(HS_SECRET if n == 1 else HS_SECRET2, {"kid": kid})
+            kk = R.keys()[R.key_for_alg(c["alg"], n)]
+            return JsonWebKey.import_key(R.pem_private(kk) if private else R.pem_public(kk), {"kid": kid})
+        t1 = jw.encode({"alg": c["alg"], "kid": "kA"}, {"sub": "one"}, kobj(1, True, "kA"))
+        kid2 = "kA" if c["how"] == "replace-same-kid" else "kB"
+        t2 = jw.encode({"alg": c["alg"], "kid": kid2}, {"sub": "two"}, kobj(2, True, kid2))
+        ks = KeySet([kobj(1, False, "kA")])
+        def dec(t):
+            try:
+                return dict(jw.decode(t, ks)).get("sub")
+            except Exception as e:
+                return "refused"
+        res = {"before": [dec(t1), dec(t2)]}
+        if c["how"] == "replace-same-kid":
+            ks.keys[0] = kobj(2, False, "kA")
+        elif c["how"] == "remove":
+            ks.keys.clear(); ks.keys.append(kobj(2, False, "kB"))
+        else:
+            ks.keys.append(kobj(2, False, "kB"))
+        res["after"] = [dec(t1), dec(t2)]
+        return res
+    if c["op"] == "eddsa_curve":
+        k = R.keys()["ed25519-1" if c["crv"] == "Ed25519" else "ed448-1"]
+        other = R.keys()["ed25519-2" if c["crv"] == "Ed25519" else "ed25519-1"]
+        priv, pub = JsonWebKey.import_key(R.pem_private(k)), JsonWebKey.import_key(R.pem_public(k))
+        J = JsonWebSignature()
+        res = {}
+        try:
+            if c["ser"] == "compact":
+                t = J.serialize_compact({"alg": "EdDSA"}, b"payload", priv)
+                res["own"] = J.deserialize_compact(t, pub)["payload"] == b"payload"
+                si, sg = t.rsplit(b".", 1)
+                res["ref_accepts"] = bool(R.verify("EdDSA", k, si, lenient(sg)))
+                rt = R.ref_serialize_compact({"alg": "EdDSA"}, b"payload", k)
+                res["interop_in"] = J.deserialize_compact(rt, pub)["payload"] == b"payload"
+                try:
+                    J.deserialize_compact(t, JsonWebKey.import_key(R.pem_public(other))); res["other_key"] = "accepted"
+                except Exception as e:
+                    res["other_key"] = "refused"
+                try:
+                    J.deserialize_compact(si + b"." + R.b64u(bytes([lenient(sg)[0] ^ 1]) + lenient(sg)[1:]), pub); res["flipped"] = "accepted"
+                except Exception:
+                    res["flipped"] = "refused"
+            elif c["ser"] == "jwt":
+                jw = JsonWebToken(["EdDSA"])
+                t = jw.encode({"alg": "EdDSA"}, {"sub": "s"}, priv)
+                res["own"] = dict(jw.decode(t, pub)) == {"sub": "s"}
+            else:
+                hdr = {"protected": {"alg": "EdDSA"}}
+                o = J.serialize_json(hdr if c["ser"] == "flat" else [hdr, hdr], b"payload", priv)
+                res["own"] = J.deserialize_json(o, pub)["payload"] == b"payload"
+        except Exception as e:
+            res["raised"] = type(e).__name__ + ": " + str(e)[:80]
+        return res
     if c["op"] == "jwt_reuse":
         jwt = JsonWebToken(R.ALL_ALGS)
         def kobj(n, private):
@@ -314,7 +380,7 @@ def verify_entries(c, pairs):
 
 
 def model_line(c):
-    if c["op"] in ("hskey", "jwt_reuse"):
+    if c["op"] in ("hskey", "jwt_reuse", "eddsa_curve", "keyset_rotation"):
         return None
     if c["op"] == "hmac":
         return {"op": "hmac", "bits": c["bits"], "k": c["k"], "m": c["m"], "key": {"oct": ""}, "headers": {}}
@@ -360,6 +426,20 @@ def ref_key(c):
 def oracle(c, out):
     v = []
     if c["op"] == "hmac":
+        return v
+    if c["op"] == "keyset_rotation":
+        want_after = {"replace-same-kid": ["refused", "two"], "remove": ["refused", "two"], "append-new": ["one", "two"]}[c["how"]]
+        if out["before"] != ["one", "refused"] or out["after"] != want_after:
+            v.append((f"{c['alg']}: a KeySet changed in place ({c['how']}) verified {out['before']} before and {out['after']} after the change, expected ['one', 'refused'] and {want_after}",
+                      {"alg": c["alg"], "op": "keyset_rotation", "kind": "accepted-unverified" if out["after"][0] != want_after[0] else "own-token-refused"}))
+        return v
+    if c["op"] == "eddsa_curve":
+        want = {"own": True, "ref_accepts": True, "interop_in": True, "other_key": "refused", "flipped": "refused"}
+        for k_, val in out.items():
+            if k_ == "raised" or want.get(k_) != val:
+                v.append((f"EdDSA over {c['crv']} ({c['ser']}): {k_} = {val!r}" + ("" if k_ == "raised" else f", expected {want.get(k_)!r}"),
+                          {"alg": "EdDSA", "op": "eddsa_curve", "kind": "own-token-refused" if k_ in ("own", "interop_in", "raised") else "accepted-unverified"}))
+                break
         return v
     if c["op"] == "jwt_reuse":
         for i, r in enumerate(out["reuse"]):
@@ -426,6 +506,10 @@ def oracle(c, out):
 
 
 def classify(c, out):
+    if c["op"] == "eddsa_curve":
+        return f"eddsa_curve/{c['crv']}/{c['ser']}"
+    if c["op"] == "keyset_rotation":
+        return f"keyset_rotation/{c['how']}"
     if c["op"] == "jwt_reuse":
         return f"jwt_reuse/{c['kform']}/{len(c['order'])}"
     if c["op"] == "hskey":
@@ -434,6 +518,10 @@ def classify(c, out):
 
 
 def nontrivial(c, out):
+    if c["op"] == "eddsa_curve":
+        return [c["crv"], c["ser"]]
+    if c["op"] == "keyset_rotation":
+        return [c["alg"], c["how"]]
     if c["op"] == "jwt_reuse":
         return [c["alg"], c["kform"], c["order"]]
     if c["op"] == "hskey":
